@@ -160,7 +160,12 @@ func (s String) Less(v Value) bool {
 		return s.Kind() < v.Kind()
 	}
 
-	return s.String() < v.(String).String()
+	t := v.(String)
+	if a, b := s.String(), t.String(); a != b {
+		return a < b
+	}
+	// Same text: strings that differ only in offset are unequal, so order them by offset.
+	return s.offset < t.offset
 }
 
 // Negate returns {(negateTag): s}.
